@@ -48,6 +48,9 @@ CHECKS = {
  'C03': dict(level='exploration', tech='runtime monitor: paired-call metamorphic relations on radial_solver (nondimensionalisation, exact rescaling, solve_for arrangement, integrator, nested/uniform grid refinement, Saito-Molodensky), each member guarded by a 100x-tighter-tolerance convergence probe',
              text='Randomised exploration over 1-4 layer bodies (solid, static-liquid, dynamic-liquid at w>=1e-4), constant and linear profiles defined independently of the grid (analytic enclosed mass), l=2..6, scale factors 1e-2..1e2, integrator pairs; bit-identity demanded for solve_for arrangements; refinement relations are decided by convergence order over 3-4 grid levels.',
              note='Budget 50 rtol + 10 (delta_a+delta_b); unconverged or failed members make a case inconclusive. One open known finding (first-order interface gap under uniform refinement of multi-layer bodies).', ref='4/C03'),
+ 'C04': dict(level='exploration', tech='runtime monitor: subspace-membership oracle (solver solution at integration end points vs span of find_starting_conditions evaluated there), start-radius sweeps and family cross-checks of Love numbers, and a 40-digit Bessel reference for the z helper observed through the starting vectors',
+             text='Randomised exploration over solid/liquid, static/dynamic cores, both starting-condition families, l=2..8, frequencies, soft lossy rigidities (both branches of z), start radii 1e-4..0.5 R; only converged solves are decisive.',
+             note='Interior slices are not used for the subspace test (dense-output interpolation error ~1e-6 observed). Three open known findings (Takeuchi y6 cross-index, Takeuchi truncated phi/psi series, z Taylor powers), all in .pyx.', ref='4/C04'),
 }
 NA = []
 def main():
